@@ -81,12 +81,47 @@ def _r6(ctx):
     problems, entry_alias, appends, creates = [], set(), set(), 0
     unsure = []
 
+    # locals of the loop bound (once) to an expression that looks into the table -- `known = key in D`, `entry = D.get(key)`: a test
+    # on such a local is a test on the table
+    lstores = {}
+    for x in ast.walk(loops[0]):
+        if isinstance(x, ast.Name) and isinstance(x.ctx, ast.Store):
+            lstores[x.id] = lstores.get(x.id, 0) + 1
+    lookups = [a for a in ast.walk(loops[0]) if isinstance(a, ast.Assign) and len(a.targets) == 1 and isinstance(a.targets[0], ast.Name)
+               and any(isinstance(x, ast.Name) and re.fullmatch(D, x.id) for x in ast.walk(a.value))]
+    # (bound once -- or looked up once and given a default where the look-up found nothing: `e = D.get(k)` .. `if e is None: e = {..}`)
+    via = {a.targets[0].id: a.value for a in lookups if sum(1 for b in lookups if b.targets[0].id == a.targets[0].id) == 1}
+
+    def through_locals(test):
+        import copy
+        from ..normalize import _Subst
+        return _Subst({k: copy.deepcopy(v) for k, v in via.items()}).visit(copy.deepcopy(test)) if via else test
+
+    def about_key(target):
+        """the names the entry's key is written with in `D[<key>] = ..`, and the locals of the loop computed from them"""
+        names = {x.id for x in ast.walk(target.slice) if isinstance(x, ast.Name)}
+        return names | {a.targets[0].id for a in ast.walk(loops[0]) if isinstance(a, ast.Assign) and len(a.targets) == 1 and isinstance(a.targets[0], ast.Name)
+                        and any(isinstance(x, ast.Name) and x.id in names for x in ast.walk(a.value))}
+
     def absent_guard(test, pol):
         """does (test, polarity) say `key is not in D yet`?"""
+        test = through_locals(test)
+        for _ in range(3):                    # `not (..)` / `(..) is None` / `(..) is not None` around the look-up
+            if isinstance(test, ast.UnaryOp) and isinstance(test.op, ast.Not):
+                test, pol = test.operand, not pol
+            elif isinstance(test, ast.Compare) and len(test.ops) == 1 and isinstance(test.ops[0], (ast.Is, ast.IsNot)) and isinstance(test.comparators[0], ast.Constant) \
+                    and test.comparators[0].value is None and isinstance(test.left, ast.Call) and isinstance(test.left.func, ast.Attribute) and test.left.func.attr == "get":
+                test, pol = test.left, (pol if isinstance(test.ops[0], ast.IsNot) else not pol)
+            else:
+                break
+        # `k in D` / `k not in D` (read from the syntax tree: the text `knotinD` also ends in `inD`)
+        if isinstance(test, ast.Compare) and len(test.ops) == 1 and isinstance(test.ops[0], (ast.In, ast.NotIn)) and isinstance(test.comparators[0], ast.Name) \
+                and re.fullmatch(D, test.comparators[0].id) and isinstance(test.left, ast.Name):
+            return pol if isinstance(test.ops[0], ast.NotIn) else not pol
         t = ast.unparse(test).replace(" ", "")
-        if re.fullmatch(rf"{D}\.get\(\w+\)", t) or re.fullmatch(rf"\w+in{D}", t):
+        if re.fullmatch(rf"{D}\.get\(\w+\)", t):
             return not pol
-        if re.fullmatch(rf"\w+notin{D}", t) or re.fullmatch(rf"not{D}\.get\(\w+\)", t):
+        if re.fullmatch(rf"not{D}\.get\(\w+\)", t):
             return pol
         return False
 
@@ -112,7 +147,8 @@ def _r6(ctx):
                         if isinstance(t, ast.Subscript) and re.fullmatch(D, ast.unparse(t.value)):
                             if any(absent_guard(g, p_) for g, p_ in guards):
                                 creates += 1
-                            elif any(Dn in ast.unparse(g) or any(re.fullmatch(D, x.id) for x in ast.walk(g) if isinstance(x, ast.Name)) for g, _ in guards):
+                            elif any(Dn in ast.unparse(g) or any(re.fullmatch(D, x.id) or x.id in via or x.id in about_key(t) for x in ast.walk(g) if isinstance(x, ast.Name)) for g, _ in guards):
+                                # (so is a test on the species' name spelled without the table: a set of names seen, a flag computed from the name)
                                 # under a test on the table that is spelled another way (`.get(k) is None`, a count, ..): not read here
                                 unsure.append((n.lineno, f"`{ast.unparse(t)} = ...` stands under `{ast.unparse(guards[-1][0])[:60]}`, which this rule does not read as `species not seen yet`"))
                             else:
@@ -121,6 +157,13 @@ def _r6(ctx):
                             and isinstance(n.targets[0], ast.Name):
                         entry_alias.add(n.targets[0].id)
                         creates += 1
+                    # a local that stands for the species' entry: looked up (`e = D.get(k)` / `e = D[k]`), or stored as the entry (`D[k] = e`)
+                    if isinstance(n.targets[0], ast.Name) and ((isinstance(n.value, ast.Call) and isinstance(n.value.func, ast.Attribute) and n.value.func.attr == "get"
+                                                                and re.fullmatch(D, ast.unparse(n.value.func.value))) or
+                                                               (isinstance(n.value, ast.Subscript) and re.fullmatch(D, ast.unparse(n.value.value)))):
+                        entry_alias.add(n.targets[0].id)
+                    if isinstance(n.targets[0], ast.Subscript) and re.fullmatch(D, ast.unparse(n.targets[0].value)) and isinstance(n.value, ast.Name):
+                        entry_alias.add(n.value.id)
                 if isinstance(n, ast.Call) and isinstance(n.func, ast.Attribute):
                     base = ast.unparse(n.func.value)
                     if n.func.attr in ("update", "__setitem__") and re.fullmatch(D, base) and any(absent_guard(g, p_) for g, p_ in guards):
@@ -331,9 +374,9 @@ def _r1(ctx, m):
         elif any(partial(it) for it in its):
             ctx.bad("R1", "override:loops", w, "the override loops run over part of the reactions / of the modifier table only",
                     expected="for idx, reac in enumerate(reactions): for key, value in rate_modifier.items():", found="; ".join(show(i)[:70] for i in its))
-        elif _index_keyed_tables(m.func):
+        elif _index_keyed_tables(m.func, f.node):
             # understood and wrong: the reaction to override is looked up in a table with ONE slot per file index
-            ln_, src_ = _index_keyed_tables(m.func)[0]
+            ln_, src_ = _index_keyed_tables(m.func, f.node)[0]
             ctx.bad("R1", "override:loops", (FILE, ln_), f"the reaction to override is looked up in `{src_}`, a table keyed by the file index with one slot per index: of several "
                     "reactions carrying the same index (one reaction split over temperature ranges) only the last gets the new rate, the others keep their tabulated one",
                     expected="every (reaction, modifier) pair is compared: for idx, reac in enumerate(reactions): for key, value in rate_modifier.items():", found=src_)
@@ -345,7 +388,7 @@ def _r1(ctx, m):
         reac = ("elem", m.REAC, L1)
         idx = ("idx", m.REAC, L1)
         want_guard = ("cmp", ("Eq",), (("key", RM, L2), ("attr", reac, "idxfromfile")))
-        g = [(simp(c), p) for c, p in f.guards]
+        g = [(simp(c), p) for c, p in f.guards if not vacuous_guard(simp(c), p, its)]
         g_ok = len(g) == 1 and g[0][1] is True and (g[0][0] == want_guard or g[0][0] == ("cmp", ("Eq",), (want_guard[2][1], want_guard[2][0])))
         # understood and wrong: conditions made of comparisons / attributes / loop variables only that differ from the one required; a
         # condition that goes through a call (a predicate helper, a membership test in a computed set) is not read here
@@ -376,7 +419,12 @@ def _r1(ctx, m):
             hv = [k for k, v in hs.items() if v == ("val", RM, L2)]
             if hi and hv:
                 okv = "".join(lw.text.split()) == f"k[{hi[0]}]={hv[0]};"
-        if not okv and sv[0] not in ("fstr", "const", "join"):
+        # understood and wrong: a text whose holes are all values of these two loops (the position, the key, the new rate, the reaction's
+        # own attributes) -- anything else in it (a symbol handed in from elsewhere, a piece built by a helper) is not read here
+        roles = {idx: ("const", 0), ("val", RM, L2): ("const", 0), ("key", RM, L2): ("const", 0), reac: ("const", 0)}
+        closed = not lw.seqs and all(plain(h_) and not any(isinstance(x, tuple) and x and x[0] in ("param", "global", "attr", "sub", "elem", "idx", "key", "val", "bv")
+                                                           for x in _walk(subst(h_[1] if h_[0] == "fmt" else h_, roles))) for h_ in lw.holes.values())
+        if not okv and (sv[0] not in ("fstr", "const", "join") or not closed):
             # not a piece of text this rule can read (built by a helper with loops, chosen by a run-time condition, ...)
             ctx.unrec("R1", "override:statement", w, f"the stored statement is not reconstructible as text: {show(sv)[:120]}")
         else:
@@ -392,6 +440,33 @@ def _r1(ctx, m):
         ctx.check(not brk, "R1", "override:no-early-exit", (FILE, brk[0].line if brk else f.line),
                   "the pass over the reactions is not left early: reactions sharing an index are all overridden",
                   found="; ".join(f"{x.kind}@{x.line}" for x in brk))
+
+
+def vacuous_guard(c, pol, iterables) -> bool:
+    """a test that holds whenever the loops it stands around run at all: the truthiness / a non-zero length of a sequence or table one of
+    the loops iterates (`if rate_modifier:` around `for key, value in rate_modifier.items():`) -- it changes nothing about which pairs
+    are visited"""
+    if not pol:
+        return False
+    bases = set()
+    for it in iterables:
+        todo = [it]
+        while todo:
+            x = todo.pop()
+            bases.add(x)
+            if x[0] == "call" and x[1][0] == "global" and x[1][1] in ("enumerate", "zip", "list", "tuple", "iter", "tqdm"):
+                todo += [a for a in x[2] if isinstance(a, tuple)]
+            elif x[0] == "meth" and x[2] in ("items", "keys", "values") and not x[3]:
+                todo.append(x[1])
+    if c in bases:
+        return True
+    if c[0] == "call" and c[1] == ("global", "len") and len(c[2]) == 1 and c[2][0] in bases:
+        return True
+    if c[0] == "cmp" and len(c[1]) == 1 and len(c[2]) == 2 and c[2][0][0] == "call" and c[2][0][1] == ("global", "len") and len(c[2][0][2]) == 1 and c[2][0][2][0] in bases:
+        return (c[1][0], c[2][1]) in ((("Gt"), ("const", 0)), (("NotEq"), ("const", 0)), (("GtE"), ("const", 1)))
+    if c[0] == "cmp" and c[1] == ("IsNot",) and c[2][0] in bases and c[2][1] == ("const", None):
+        return True
+    return False
 
 
 def _plain(*vals) -> bool:
@@ -422,16 +497,27 @@ def _three(ctx, ok, sure, rule, key, where, msg, expected=None, found=None):
     return bool(ok)
 
 
-def _index_keyed_tables(fn):
+def _index_keyed_tables(fn, store=None):
     """[(line, source)] of tables with one slot per file index built in the function: `{r.idxfromfile: .. for ..}`, `dict(zip(<idxfromfile
-    of the reactions>, ..))`, `t[r.idxfromfile] = ..` -- a multi-map (`t.setdefault(r.idxfromfile, []).append(..)`, lists as values) is not one"""
+    of the reactions>, ..))`, `t[r.idxfromfile] = ..` -- a multi-map (`t.setdefault(r.idxfromfile, []).append(..)`, lists as values) is not one.
+    `store`: only the tables the statement `store` (the override store) reads by name -- a table of that kind kept for another purpose
+    (a message about unknown keys, ..) says nothing about the override"""
     out = []
+    used = {x.id for x in ast.walk(store) if isinstance(x, ast.Name)} if store is not None else None
+    # (a local the store reads may itself be looked up in the table one statement earlier: `pos = where[key]`)
+    if used is not None:
+        for a in ast.walk(fn):
+            if isinstance(a, ast.Assign) and any(isinstance(t, ast.Name) and t.id in used for t in a.targets):
+                used = used | {x.id for x in ast.walk(a.value) if isinstance(x, ast.Name)}
     for n in ast.walk(fn):
-        if isinstance(n, ast.DictComp) and isinstance(n.key, ast.Attribute) and n.key.attr == "idxfromfile" and not isinstance(n.value, (ast.List, ast.ListComp)):
-            out.append((n.lineno, ast.unparse(n)[:80]))
+        if isinstance(n, ast.Assign) and len(n.targets) == 1 and isinstance(n.targets[0], ast.Name) and isinstance(n.value, ast.DictComp) and isinstance(n.value.key, ast.Attribute) \
+                and n.value.key.attr == "idxfromfile" and not isinstance(n.value.value, (ast.List, ast.ListComp)):
+            if used is None or n.targets[0].id in used:
+                out.append((n.lineno, ast.unparse(n.value)[:80]))
         elif isinstance(n, ast.Assign) and len(n.targets) == 1 and isinstance(n.targets[0], ast.Subscript) and isinstance(n.targets[0].slice, ast.Attribute) \
                 and n.targets[0].slice.attr == "idxfromfile" and not isinstance(n.value, (ast.List, ast.ListComp)):
-            out.append((n.lineno, ast.unparse(n)[:80]))
+            if used is None or any(isinstance(x, ast.Name) and x.id in used for x in ast.walk(n.targets[0].value)):
+                out.append((n.lineno, ast.unparse(n)[:80]))
     return out
 
 
@@ -555,6 +641,9 @@ def _r2(ctx):
                             # an enumerate counter, or the parameter `idxfromfile` (int by default and annotation)
                             is_counter = fn is not None and any(isinstance(x, ast.For) and isinstance(x.iter, ast.Call) and ast.unparse(x.iter.func) == "enumerate"
                                                                 and isinstance(x.target, ast.Tuple) and ast.unparse(x.target.elts[0]) == v.id for x in ast.walk(fn))
+                            # (.. or the variable of a loop over range(..): a position)
+                            is_counter = is_counter or (fn is not None and any(isinstance(x, ast.For) and isinstance(x.target, ast.Name) and x.target.id == v.id and isinstance(x.iter, ast.Call)
+                                                                              and ast.unparse(x.iter.func) == "range" and node in list(ast.walk(x)) for x in ast.walk(fn)))
                             is_param = fn is not None and v.id == "idxfromfile" and v.id in [a.arg for a in fn.args.args]
                             ok = is_counter or is_param
                             role = "<enumerate counter>" if is_counter else v.id
@@ -577,6 +666,20 @@ def _r2(ctx):
                 if isinstance(node, (ast.Assign, ast.AugAssign)):
                     for t in (node.targets if isinstance(node, ast.Assign) else [node.target]):
                         if isinstance(t, ast.Attribute) and t.attr in ("idxfromfile", "_idxfromfile") and fn_.name != "reindex":
+                            # a helper reindex() was split into (called from reindex only) is part of it; the position within an
+                            # enumerate(..) pass written somewhere else (reindex put in place at its caller) is R3's to place
+                            callers = {g_.name for f2 in pkg.files for g_ in ast.walk(pkg.modules[f2]) if isinstance(g_, (ast.FunctionDef, ast.AsyncFunctionDef)) and g_ is not fn_
+                                       for c_ in ast.walk(g_) if isinstance(c_, ast.Call) and (c_.func.attr if isinstance(c_.func, ast.Attribute) else getattr(c_.func, "id", None)) == fn_.name}
+                            counter = isinstance(node, ast.Assign) and isinstance(node.value, ast.Name) and any(
+                                isinstance(x, ast.For) and isinstance(x.iter, ast.Call) and ast.unparse(x.iter.func) == "enumerate" and isinstance(x.target, ast.Tuple)
+                                and ast.unparse(x.target.elts[0]) == node.value.id and node in list(ast.walk(x)) for x in ast.walk(fn_))
+                            if callers == {"reindex"}:
+                                ctx.ok("R2", f"{f}:{fn_.name} writes idxfromfile", (f, node.lineno), f"`{fn_.name}` is called from reindex() only: part of the re-indexing")
+                                continue
+                            if counter:
+                                ctx.unrec("R2", f"{f}:{fn_.name} writes idxfromfile", (f, node.lineno), f"`{fn_.name}` numbers reactions by their position in a pass of its own (`{ast.unparse(node)[:60]}`): "
+                                          "whether this is the re-indexing before rendering is not read here")
+                                continue
                             ctx.bad("R2", f"{f}:{fn_.name} writes idxfromfile", (f, node.lineno), f"`{fn_.name}` assigns `{ast.unparse(node)[:70]}`: an index handed out outside the file parsers and "
                                     "Network.reindex() is neither the file's index nor the position at rendering time -- a rate modifier keyed by it reaches another reaction (and the "
                                     "`all un-indexed` test that triggers re-indexing no longer holds)", expected="idxfromfile written by the reaction parsers and by Network.reindex only", found=ast.unparse(node)[:80])
@@ -589,7 +692,9 @@ def _r2(ctx):
                 t_ = node.value.test
                 while isinstance(t_, ast.UnaryOp) and isinstance(t_.op, ast.Not):
                     t_ = t_.operand
-                if isinstance(t_, (ast.Name, ast.Attribute)):
+                # (the value tested is the raw index itself -- the thing converted on one of the arms; a flag computed elsewhere is not)
+                arms_ = {ast.unparse(x) for a_ in (node.value.body, node.value.orelse) for x in ast.walk(a_) if isinstance(x, (ast.Name, ast.Attribute))}
+                if isinstance(t_, (ast.Name, ast.Attribute)) and ast.unparse(t_) in arms_:
                     ctx.bad("R2", f"{f}:idxfromfile chosen by truthiness", (f, node.lineno), f"`{ast.unparse(node)[:80]}` decides by the truthiness of `{ast.unparse(t_)}`: the integer index 0 "
                             "counts as `no index` and becomes -1, so a modifier keyed by 0 never meets its reaction", expected="a test for the empty field (`== \"\"` / `is None`)", found=ast.unparse(node.value)[:80])
     # parameter default and annotation
@@ -603,8 +708,25 @@ def _r2(ctx):
             dv = ast.literal_eval(d)
         except Exception:
             dv = None
-        ctx.check(dv == -1 and isinstance(dv, int), "R2", "Reaction.__init__:idxfromfile default", ("naunet/reactions/reaction.py", init.lineno),
-                  "un-indexed reactions carry the int sentinel -1", found=ast.unparse(d))
+            # a named constant of the module / the class: by value
+            try:
+                from ..consteval import fold, NotConstant, class_attr_resolver
+                rfile = pkg.cls("Reaction").file
+                env_ = {}
+                for st_ in pkg.modules[rfile].body:
+                    if isinstance(st_, ast.Assign) and len(st_.targets) == 1 and isinstance(st_.targets[0], ast.Name):
+                        try:
+                            env_[st_.targets[0].id] = ast.literal_eval(st_.value)
+                        except Exception:
+                            pass
+                dv = fold(d, env_, class_attr_resolver(pkg, "Reaction"))
+            except Exception:
+                dv = None
+        if dv is None or isinstance(dv, bool) or not isinstance(dv, (int, float, str)):
+            ctx.unrec("R2", "Reaction.__init__:idxfromfile default", ("naunet/reactions/reaction.py", init.lineno), f"the default `{ast.unparse(d)[:60]}` is not a constant this rule can compute")
+        else:
+            ctx.check(dv == -1 and isinstance(dv, int), "R2", "Reaction.__init__:idxfromfile default", ("naunet/reactions/reaction.py", init.lineno),
+                      "un-indexed reactions carry the int sentinel -1", found=ast.unparse(d))
     else:
         ctx.missing("R2", "Reaction.__init__:idxfromfile", ("naunet/reactions/reaction.py", init.lineno), "parameter idxfromfile vanished")
     # reader: int(key)
@@ -614,6 +736,9 @@ def _r2(ctx):
     conv = None
     # by role: the local handed to Network(rate_modifier=...)
     passed = {ast.unparse(k.value) for c in ast.walk(h) if isinstance(c, ast.Call) and ast.unparse(c.func) == "Network" for k in c.keywords if k.arg == "rate_modifier"}
+    for _ in range(3):          # `rate_modifier = converted`: the local handed on may be a plain alias of the one that was converted
+        passed |= {node.value.id for node in ast.walk(h) if isinstance(node, ast.Assign) and isinstance(node.value, ast.Name)
+                   and any(isinstance(t, ast.Name) and t.id in passed for t in node.targets)}
     for node in ast.walk(h):
         if isinstance(node, ast.Assign) and any(isinstance(t, ast.Name) and t.id in passed for t in node.targets) and isinstance(node.value, ast.DictComp):
             conv = node
@@ -645,9 +770,9 @@ def _r2(ctx):
     # the Network(...) call receives the converted dict
     if conv is not None and not getattr(conv, "_inline", False):
         later = [c for c in ast.walk(h) if isinstance(c, ast.Call) and ast.unparse(c.func) == "Network" and c.lineno > conv.lineno]
-        ok = any(any(k.arg == "rate_modifier" and ast.unparse(k.value) == ast.unparse(conv.targets[0]) for k in c.keywords) for c in later)
+        ok = any(any(k.arg == "rate_modifier" and (ast.unparse(k.value) == ast.unparse(conv.targets[0]) or (isinstance(k.value, ast.Name) and k.value.id in passed)) for k in c.keywords) for c in later)
         # understood and wrong: Network(rate_modifier=<another local>); no such keyword at all (handed on otherwise) is not read here
-        other = any(k.arg == "rate_modifier" and isinstance(k.value, ast.Name) and k.value.id != ast.unparse(conv.targets[0]) for c in later for k in c.keywords)
+        other = any(k.arg == "rate_modifier" and isinstance(k.value, ast.Name) and k.value.id != ast.unparse(conv.targets[0]) and k.value.id not in passed for c in later for k in c.keywords)
         _three(ctx, ok, other, "R2", "RenderCommand.handle:Network(rate_modifier=)", (RENDER, later[0].lineno if later else conv.lineno),
                "the converted dictionary is what Network(...) receives", found="; ".join(ast.unparse(k.value)[:40] for c in later for k in c.keywords if k.arg == "rate_modifier"))
     # writer: string keys
@@ -663,6 +788,11 @@ def _r2(ctx):
         ctx.missing("R2", "BaseConfiguration.content:rate_modifier", (CONF, cfn.lineno), "no assignment of chemistry['rate_modifier']")
     else:
         v = _helpers_inlined(pkg, CONF, "BaseConfiguration", w.value)         # a one-expression helper is what it returns
+        for _ in range(2):            # .. and a local bound once in the writer is what it was bound to
+            if isinstance(v, ast.Name):
+                asg = [a for a in ast.walk(cfn) if isinstance(a, ast.Assign) and len(a.targets) == 1 and isinstance(a.targets[0], ast.Name) and a.targets[0].id == v.id]
+                if len(asg) == 1 and sum(1 for x in ast.walk(cfn) if isinstance(x, ast.Name) and x.id == v.id and isinstance(x.ctx, ast.Store)) == 1:
+                    v = _helpers_inlined(pkg, CONF, "BaseConfiguration", asg[0].value)
         okw = isinstance(v, ast.DictComp) and isinstance(v.key, ast.Call) and ast.unparse(v.key.func) == "str" and "_ratemodifier" in ast.unparse(v.generators[0].iter) \
             and len(v.generators) == 1 and not v.generators[0].ifs          # every entry, none filtered away
         if not isinstance(v, ast.DictComp) and not _whole_copy(v):
@@ -703,7 +833,18 @@ def _r3(ctx):
                     okg = not ifs and base == ("attr", NET, "reactions") and body in (
                         ("cmp", ("Eq",), (("attr", bv, "idxfromfile"), ("unop", "USub", ("const", 1)))),
                         ("cmp", ("Eq",), (("attr", bv, "idxfromfile"), ("const", -1))))
-        _three(ctx, okg, bool(g) and _plain(*[x for x, _ in g]) and not c.loops, "R3", "render:reindex-guard", (FILE, c.line), "reindex runs exactly when every reaction of network.reactions is un-indexed (idxfromfile == -1)",
+        gsure = False
+        if len(g) == 1 and not c.loops and _plain(g[0][0]):
+            t = g[0][0]
+            b = match(("call", ("global", V("q")), (V("c"),), ()), t)
+            mm = as_map(b["c"]) if b and b["q"] in ("all", "any") and b["c"][0] == "comp" else None
+            if mm:
+                cm = mm[1]
+                while cm[0] == "unop" and cm[1] == "Not":
+                    cm = cm[2]
+                gsure = cm[0] == "cmp" and len(cm[2]) == 2 and any(x == ("attr", mm[0], "idxfromfile") for x in cm[2]) and \
+                    any(x[0] == "const" or (x[0] == "unop" and x[2][0] == "const") for x in cm[2])
+        _three(ctx, okg, gsure, "R3", "render:reindex-guard", (FILE, c.line), "reindex runs exactly when every reaction of network.reactions is un-indexed (idxfromfile == -1)",
                expected="if all([reac.idxfromfile == -1 for reac in network.reactions])", found="; ".join(show(x)[:120] for x, _ in g))
         _three(ctx, c.value[1] == NET and c.seq < p[4] and not p[1] and not p[2], c.value[1] == NET and not p[1] and not p[2], "R3", "render:reindex-before-prepare", (FILE, c.line),
                "network.reindex() precedes the single, unconditional _prepare_ode_content call", found=f"reindex seq {c.seq}, prepare seq {p[4]}")
@@ -740,7 +881,10 @@ def _r3(ctx):
         sure = not extra and all(simp(a)[0] == "attr" and simp(a)[1] == NET for k_, a in given.items() if k_ != params[0])
         _three(ctx, ok, sure, "R3", "render:modifier-args", (FILE, p[3]), "_prepare_ode_content receives network._species_kwargs, network.rate_modifier, network.ode_modifier",
                found=", ".join(f"{k_}={show(simp(a))[:40]}" for k_, a in given.items()))
-    rfn = pkg.method("Network", "reindex")
+    # (helpers of the class put back; a loop by position `for i in range(len(L)): L[i].idxfromfile = i` is the enumerate loop it abbreviates)
+    import copy
+    from ..normalize import index_loops_to_enumerate
+    rfn = index_loops_to_enumerate(copy.deepcopy(pkg.expanded("Network", "reindex")))
     ctx.saw(NETWORK, "Network.reindex")
     rfl = Flow(rfn, NETWORK)
     st = [f for f in rfl.facts if f.kind == "attrstore" and f.target == "idxfromfile"]
@@ -750,6 +894,9 @@ def _r3(ctx):
         base = ("attr", ("param", "self"), "reaction_list")
         ok = simp(lp.iter) == ("call", ("global", "enumerate"), (base,), ()) and st[0].value == ("idx", base, lp.id) and \
             st[0].extra.get("obj") == ("elem", base, lp.id) and not st[0].guards
+        # by position: `for i in range(len(L)): L[i].idxfromfile = i`
+        rng = ("call", ("global", "range"), (("call", ("global", "len"), (base,), ()),), ())
+        ok = ok or (simp(lp.iter) == rng and simp(st[0].value) == ("elem", rng, lp.id) and simp(st[0].extra.get("obj") or ()) == ("elem", base, lp.id) and not st[0].guards)
     # understood and wrong: one store in one loop over the reaction list whose value / guard differs (position + 1, a filtered pass)
     sure = len(st) == 1 and len(st[0].loops) == 1 and _plain(st[0].value, simp(st[0].loops[0].iter)) and _plain(*[c_ for c_, _ in st[0].guards])
     _three(ctx, ok, sure, "R3", "Network.reindex", (NETWORK, rfn.lineno), "reindex sets reac.idxfromfile = position for every reaction of reaction_list",
@@ -867,7 +1014,8 @@ def _r5(ctx, m):
                 keys.add(x[2][1])
     sets[(FILE, "TemplateLoader._prepare_ode_content (reader)")] = keys
     # reader 2: example.py
-    h = pkg.method("ExampleCommand", "handle")
+    from .c20 import _example_handle
+    h = _example_handle(pkg)            # (a helper the option value is composed in is put back)
     ctx.saw(EXAMPLE, "ExampleCommand.handle")
     k2 = set()
     # by role: every iteration (a `for` statement or a comprehension clause) over <table>.items() where <table> is the example
@@ -899,12 +1047,47 @@ def _r5(ctx, m):
     ctx.saw(INIT, "InitCommand.handle")
     k3 = set()
     # by role: the loop(s) over the occurrences of --ode-modifier
+    # ... and in them only what is stored into / read from an ENTRY of the table handed on as `ode_modifier=`: the display (or dict(..) call)
+    # an entry is created from -- written in the store or bound to a local first -- and the string subscripts of `D[..]` / of a local
+    # that stands for an entry.  Other string-keyed things in the loop (a parsed record, a match object) are not the modifier's keys.
+    from .c20 import _alias_closure
+    Dnames = set(_alias_closure(h, next((k.value.id for c in ast.walk(h) if isinstance(c, ast.Call) for k in c.keywords if k.arg == "ode_modifier" and isinstance(k.value, ast.Name)), "ode_modifier")))
+
+    def is_D(e):
+        return isinstance(e, ast.Name) and e.id in Dnames
+
+    def is_entry_expr(e):
+        return (isinstance(e, ast.Subscript) and is_D(e.value)) or \
+            (isinstance(e, ast.Call) and isinstance(e.func, ast.Attribute) and e.func.attr in ("get", "setdefault") and is_D(e.func.value))
+
+    def entry_keys(v, scope, depth=0):
+        if isinstance(v, ast.Dict):
+            return {k.value for k in v.keys if isinstance(k, ast.Constant) and isinstance(k.value, str)}
+        if isinstance(v, ast.Call) and isinstance(v.func, ast.Name) and v.func.id == "dict" and not v.args:
+            return {k.arg for k in v.keywords if k.arg}
+        if isinstance(v, ast.Name) and depth < 2:
+            out = set()
+            for a in ast.walk(scope):
+                if isinstance(a, ast.Assign) and any(isinstance(t, ast.Name) and t.id == v.id for t in a.targets):
+                    out |= entry_keys(a.value, scope, depth + 1)
+            return out
+        return set()
     for n in _option_loops(h, _option_origins(h), "ode-modifier"):
-        if True:
-            for d in ast.walk(n):
-                if isinstance(d, ast.Dict):
-                    k3 |= {k.value for k in d.keys if isinstance(k, ast.Constant)}
-            k3 |= {k for k in _str_keys(n)}
+        entries = {t.id for a in ast.walk(n) if isinstance(a, ast.Assign) and is_entry_expr(a.value) for t in a.targets if isinstance(t, ast.Name)}
+        for d in ast.walk(n):
+            if isinstance(d, ast.Assign) and any(isinstance(t, ast.Subscript) and is_D(t.value) for t in d.targets):
+                k3 |= entry_keys(d.value, n)
+            elif isinstance(d, ast.Call) and isinstance(d.func, ast.Attribute) and is_D(d.func.value):
+                if d.func.attr == "setdefault" and len(d.args) == 2:
+                    k3 |= entry_keys(d.args[1], n)
+                elif d.func.attr == "update" and d.args and isinstance(d.args[0], ast.Dict):
+                    for v_ in d.args[0].values:
+                        k3 |= entry_keys(v_, n)
+                elif d.func.attr == "__setitem__" and len(d.args) == 2:
+                    k3 |= entry_keys(d.args[1], n)
+            elif isinstance(d, ast.Subscript) and isinstance(d.slice, ast.Constant) and isinstance(d.slice.value, str) and \
+                    (is_entry_expr(d.value) or (isinstance(d.value, ast.Name) and d.value.id in entries)):
+                k3.add(d.slice.value)
     sets[(INIT, "InitCommand.handle (writer)")] = k3
     # data: example modules
     nmod = 0
@@ -983,6 +1166,12 @@ MUTANTS = [
         {"file": T, "old": "    def _assign_rates(\n", "new": "    @staticmethod\n    def _matching(table, indices):\n        known = set(indices)\n        return {k: v for k, v in table.items() if k in known}\n\n    def _assign_rates(\n"},
         {"file": T, "old": "        rate_modifier = network.rate_modifier\n", "new": "        rate_modifier = self._matching(network.rate_modifier, reactindices)\n"}], "rules": ["R3"]},
     {"name": "network-setattr-filtered-table", "file": NETWORK, "old": "        self._rate_modifier = rate_modifier.copy() if rate_modifier else {}", "new": '        setattr(self, "_rate_modifier", {k: v for k, v in rate_modifier.items() if v} if rate_modifier else {})', "rules": ["R7"]},
+    # hardening wave 4: the same defects inside the spellings accepted since
+    {'name': 'override-guard-clause-wrong-way', 'file': T, 'old': '        for idx, reac in enumerate(reactions):\n            for key, value in rate_modifier.items():\n                if key == reac.idxfromfile:\n                    logging.warning(f"Overwirte the rate of: `{reac}` with {value}")\n                    rateeqns[idx] = f"{rate_sym}[{idx}] = {value};"\n', 'new': '        for idx, reac in enumerate(reactions):\n            for key, value in rate_modifier.items():\n                if key == reac.idxfromfile:\n                    continue\n                logging.warning(f"Overwirte the rate of: `{reac}` with {value}")\n                rateeqns[idx] = f"{rate_sym}[{idx}] = {value};"\n', 'rules': ['R1']},
+    {'name': 'index-default-named-constant-zero', 'edits': [{'file': 'naunet/reactions/reaction.py', 'old': 'class Reaction', 'new': 'NO_INDEX = 0\n\n\nclass Reaction'}, {'file': 'naunet/reactions/reaction.py', 'old': '        idxfromfile: int = -1,\n', 'new': '        idxfromfile: int = NO_INDEX,\n'}], 'rules': ['R2']},
+    {'name': 'render-keys-by-loop-without-int', 'file': RENDER, 'old': '        rate_modifier = {int(key): value for key, value in rate_modifier.items()}\n', 'new': '        converted = {}\n        for key, value in rate_modifier.items():\n            converted[key] = value\n        rate_modifier = converted\n', 'rules': ['R2']},
+    {'name': 'reindex-helper-from-1', 'edits': [{'file': NETWORK, 'old': '        for idx, reac in enumerate(self.reaction_list):\n            reac.idxfromfile = idx\n', 'new': '        self._number_reactions()\n\n    def _number_reactions(self) -> None:\n        for idx, reac in enumerate(self.reaction_list):\n            reac.idxfromfile = idx + 1\n'}], 'rules': ['R3']},
+    {'name': 'ode-modifier-by-key-row-without-kwargs', 'file': T, 'old': '        for sname, expr in ode_modifier.items():\n            spec = Species(sname, **species_kwargs)\n            sidx = species.index(spec)\n            for fact, dep in zip(expr["factors"], expr["reactants"]):\n', 'new': '        for sname in ode_modifier:\n            expr = ode_modifier[sname]\n            spec = Species(sname)\n            sidx = species.index(spec)\n            for fact, dep in zip(expr["factors"], expr["reactants"]):\n', 'rules': ['R4']},
 ]
 BENIGN = [
     # (a break out of the loop over the modifier keys skips only the remaining keys for this reaction: keys are distinct)
@@ -1017,6 +1206,20 @@ BENIGN = [
     {"name": "reindex-zip-imported-count", "edits": [{"file": NETWORK, "old": 'import shutil\n', "new": 'import shutil\nfrom itertools import count as _count\n'}, {"file": NETWORK, "old": 'for idx, reac in enumerate(self.reaction_list):\n            reac.idxfromfile = idx', "new": 'for pos, reac in zip(_count(), self.reaction_list):\n            reac.idxfromfile = pos'}]},
     {"name": "statement-percent-format", "file": T, "old": 'rateeqns[idx] = f"{rate_sym}[{idx}] = {value};"', "new": 'rateeqns[idx] = "%s[%d] = %s;" % (rate_sym, idx, value)'},
     {"name": "render-int-keys-dict-of-pairs", "file": RENDER, "old": "rate_modifier = {int(key): value for key, value in rate_modifier.items()}", "new": "rate_modifier = dict((int(key), value) for key, value in rate_modifier.items())"},
+    # hardening wave 4: everyday spellings (guard clauses, a test around the loops, named constants, a value bound to a local first, loop <-> comprehension)
+    {'name': 'override-under-table-test', 'file': T, 'old': '        for idx, reac in enumerate(reactions):\n            for key, value in rate_modifier.items():\n                if key == reac.idxfromfile:\n                    logging.warning(f"Overwirte the rate of: `{reac}` with {value}")\n                    rateeqns[idx] = f"{rate_sym}[{idx}] = {value};"\n', 'new': '        if rate_modifier:\n            for idx, reac in enumerate(reactions):\n                for key, value in rate_modifier.items():\n                    if key == reac.idxfromfile:\n                        logging.warning(f"Overwirte the rate of: `{reac}` with {value}")\n                        rateeqns[idx] = f"{rate_sym}[{idx}] = {value};"\n'},
+    {'name': 'override-guard-clause', 'file': T, 'old': '        for idx, reac in enumerate(reactions):\n            for key, value in rate_modifier.items():\n                if key == reac.idxfromfile:\n                    logging.warning(f"Overwirte the rate of: `{reac}` with {value}")\n                    rateeqns[idx] = f"{rate_sym}[{idx}] = {value};"\n', 'new': '        for idx, reac in enumerate(reactions):\n            for key, value in rate_modifier.items():\n                if key != reac.idxfromfile:\n                    continue\n                logging.warning(f"Overwirte the rate of: `{reac}` with {value}")\n                rateeqns[idx] = f"{rate_sym}[{idx}] = {value};"\n'},
+    {'name': 'rate-symbol-module-constant', 'edits': [{'file': T, 'old': 'class TemplateLoader:\n', 'new': 'RATE_SYMBOL = "k"\n\n\nclass TemplateLoader:\n'}, {'file': T, 'old': '        rate_sym = "k"\n', 'new': '        rate_sym = RATE_SYMBOL\n'}]},
+    {'name': 'init-ode-entry-bound-first', 'file': INIT, 'old': '                if ode_modifier.get(key):\n                    ode_modifier[key]["factors"].append(fact)\n                    ode_modifier[key]["reactants"].append(rdep)\n                else:\n                    ode_modifier[key] = {\n                        "factors": [fact],\n                        "reactants": [rdep],\n                    }\n', 'new': '                if ode_modifier.get(key):\n                    ode_modifier[key]["factors"].append(fact)\n                    ode_modifier[key]["reactants"].append(rdep)\n                else:\n                    entry = {"factors": [fact], "reactants": [rdep]}\n                    ode_modifier[key] = entry\n'},
+    {'name': 'init-ode-known-flag', 'file': INIT, 'old': '                if ode_modifier.get(key):\n                    ode_modifier[key]["factors"].append(fact)\n                    ode_modifier[key]["reactants"].append(rdep)\n                else:\n                    ode_modifier[key] = {\n                        "factors": [fact],\n                        "reactants": [rdep],\n                    }\n', 'new': '                known = key in ode_modifier\n                if not known:\n                    ode_modifier[key] = {"factors": [], "reactants": []}\n                ode_modifier[key]["factors"].append(fact)\n                ode_modifier[key]["reactants"].append(rdep)\n'},
+    {'name': 'init-ode-entry-looked-up-once', 'file': INIT, 'old': '                if ode_modifier.get(key):\n                    ode_modifier[key]["factors"].append(fact)\n                    ode_modifier[key]["reactants"].append(rdep)\n                else:\n                    ode_modifier[key] = {\n                        "factors": [fact],\n                        "reactants": [rdep],\n                    }\n', 'new': '                entry = ode_modifier.get(key)\n                if entry is None:\n                    entry = {"factors": [], "reactants": []}\n                    ode_modifier[key] = entry\n                entry["factors"].append(fact)\n                entry["reactants"].append(rdep)\n'},
+    {'name': 'render-int-keys-by-loop', 'file': RENDER, 'old': '        rate_modifier = {int(key): value for key, value in rate_modifier.items()}\n', 'new': '        converted = {}\n        for key, value in rate_modifier.items():\n            converted[int(key)] = value\n        rate_modifier = converted\n'},
+    {'name': 'reindex-by-position', 'file': NETWORK, 'old': 'for idx, reac in enumerate(self.reaction_list):\n            reac.idxfromfile = idx', 'new': 'for idx in range(len(self.reaction_list)):\n            self.reaction_list[idx].idxfromfile = idx'},
+    {'name': 'reindex-through-helper', 'edits': [{'file': NETWORK, 'old': '        for idx, reac in enumerate(self.reaction_list):\n            reac.idxfromfile = idx\n', 'new': '        self._number_reactions()\n\n    def _number_reactions(self) -> None:\n        for idx, reac in enumerate(self.reaction_list):\n            reac.idxfromfile = idx\n'}]},
+    {'name': 'index-default-named-constant', 'edits': [{'file': 'naunet/reactions/reaction.py', 'old': 'class Reaction', 'new': 'NO_INDEX = -1\n\n\nclass Reaction'}, {'file': 'naunet/reactions/reaction.py', 'old': '        idxfromfile: int = -1,\n', 'new': '        idxfromfile: int = NO_INDEX,\n'}]},
+    {'name': 'config-writer-str-keys-by-loop', 'file': CONF, 'old': '        chemistry["rate_modifier"] = {\n            str(key): value for key, value in self._ratemodifier.items()\n        }\n', 'new': '        ratemod = {}\n        for key, value in self._ratemodifier.items():\n            ratemod[str(key)] = value\n        chemistry["rate_modifier"] = ratemod\n'},
+    {'name': 'ode-modifier-walked-by-key', 'file': T, 'old': '        for sname, expr in ode_modifier.items():\n            spec = Species(sname, **species_kwargs)\n            sidx = species.index(spec)\n            for fact, dep in zip(expr["factors"], expr["reactants"]):\n', 'new': '        for sname in ode_modifier:\n            expr = ode_modifier[sname]\n            spec = Species(sname, **species_kwargs)\n            sidx = species.index(spec)\n            for fact, dep in zip(expr["factors"], expr["reactants"]):\n'},
+    {'name': 'rate-modifier-walked-by-key', 'file': T, 'old': '            for key, value in rate_modifier.items():\n                if key == reac.idxfromfile:\n', 'new': '            for key in rate_modifier:\n                value = rate_modifier[key]\n                if key == reac.idxfromfile:\n'},
 ]
 
 
